@@ -190,7 +190,16 @@ impl Property for C11 {
                 ctx.stats.state(punctured.iter().fold(0u64, |a, t| mix(a, *t as u64)));
                 // the blob crosses the wire to a fresh instance which takes over (crash / replication)
                 if ctx.ch.chance(1, 2) {
-                    let fate = net.send(ctx, 2, 3 + generation, 4, blob.clone());
+                    // the state travels as bincode, or (a third of the time) as JSON: the key state is a plain
+                    // serde value and a deployment may pick either; what arrives must be the same state
+                    let json_wire = ctx.ch.chance(1, 3);
+                    let wire = if json_wire {
+                        ctx.stats.probe("key_state_sent_as_json");
+                        serde_json::to_vec(&server.get_private_key()).map_err(|e| Violation::new("c11.setup", "export_json", e.to_string()))?
+                    } else {
+                        blob.clone()
+                    };
+                    let fate = net.send(ctx, 2, 3 + generation, 4, wire);
                     if let Fate::Sent(copies) = fate {
                         generation += 1;
                         // the importer is a fresh instance, or (half of the time, when there is one) the
@@ -204,7 +213,11 @@ impl Property for C11 {
                         };
                         for (_, p) in copies {
                             // duplicated deliveries import the same state twice
-                            let ks: pp::ServerKeyState = bincode::deserialize(&p.bytes).map_err(|e| Violation::new("c11.import", "import", e.to_string()))?;
+                            let ks: pp::ServerKeyState = if json_wire {
+                                serde_json::from_slice(&p.bytes).map_err(|e| Violation::new("c11.import", "import_json", format!("a key state exported as JSON does not import: {}", e)))?
+                            } else {
+                                bincode::deserialize(&p.bytes).map_err(|e| Violation::new("c11.import", "import", e.to_string()))?
+                            };
                             importer.set_private_key(ks);
                         }
                         if reuse_lagging {
